@@ -35,7 +35,7 @@ JudgeProbe(e) ==
 
 JudgeRelay(e) ==
   LET o == RelayOutcome(e.r) IN
-  /\ Report("VERDICT", "C19_RelayFresh", e, e.pingsToTarget = 1 /\ e.freshSeq)
+  /\ Report("VERDICT", "C19_RelayFresh", e, e.r.sendErr \/ (e.pingsToTarget = 1 /\ e.freshSeq))
   /\ Report("VERDICT", "C19_RelayAck", e, e.relayedAcks = o.relayedAcks /\ e.relayedSeqOk)
   /\ Report("VERDICT", "C19_OneNack", e, e.nacks = o.nacks /\ e.nackSeqOk)
   /\ Report("VERDICT", "C19_Cleanup", e, e.handlers = 0)
